@@ -111,8 +111,11 @@ class Engine:
             self.unknowns += 1
         return r
 
-    def pc(self):
-        return [c if t else z3.Not(c) for c, t, _ in self.trace]
+    def pc(self, feas=False):
+        """path condition; feas=True leaves out the definedness side conditions (kind 's'), which are
+        typically non-linear: branch feasibility is then checked on a superset of the inputs (sound: it can only add
+        paths), while obligations are always discharged under the full path condition."""
+        return [c if t else z3.Not(c) for c, t, k in self.trace if not (feas and k == "s")]
 
     def add_axiom(self, ax):
         ax = z3.simplify(ax)
@@ -142,7 +145,7 @@ class Engine:
             if taken is None:  # replayed assumption slot: should not happen for decisions
                 raise RuntimeError("prefix/trace mismatch (non-deterministic harness?)")
         else:
-            r = self.check(*self.pc(), cond)
+            r = self.check(*self.pc(feas=True), cond)
             if r == z3.sat:
                 taken = True
             elif r == z3.unsat:
@@ -225,10 +228,10 @@ def explore(fn, *, max_paths=20000, budget_s=600.0, timeout_ms=20000, setup=None
         finally:
             Engine.cur = None
         pc = eng.pc()
-        if kind != "infeasible" and (kind != "ok" or any(k == "d" for _, _, k in eng.trace)):
+        if kind != "infeasible" and any(k == "a" for _, _, k in eng.trace) and any(k == "d" for _, _, k in eng.trace):
             # assumptions/axioms are added unchecked; make sure the path still exists
             # (a straight-line path needs no check: vacuity is guarded by the reachability twins)
-            r = eng.check(*pc)
+            r = eng.check(*eng.pc(feas=True))
             if r == z3.unsat:
                 kind = "infeasible"
             elif r == z3.unknown:
@@ -248,7 +251,7 @@ def explore(fn, *, max_paths=20000, budget_s=600.0, timeout_ms=20000, setup=None
                 key = tuple(tt for _, tt, _ in tr[: k + 1])
                 r = eng._negcache.get(key)
                 if r is None:
-                    pcs = [cc if tt else z3.Not(cc) for cc, tt, _ in tr[:k]]
+                    pcs = [cc if tt else z3.Not(cc) for cc, tt, kk in tr[:k] if kk != "s"]
                     r = eng.check(*pcs, z3.Not(c))
                     eng._negcache[key] = r
                 if r == z3.sat:
@@ -761,6 +764,11 @@ def discharge(eng, path, obligations, *, timeout_ms=20000, hints=(), use_cvc5=Tr
 
 def model_value(m, e, default=0.0):
     """concrete float/int of term e under model m (model completion)"""
+    if hasattr(m, "value"):
+        try:
+            return m.value(e)
+        except (KeyError, ValueError):
+            pass
     v = m.eval(e, model_completion=True)
     n = _num(v)
     if n is None:
